@@ -906,6 +906,79 @@ shift_multi(const struct spec_s *sp, int f, int inter)
 	}
 }
 
+/* family mstart: FREQ=MONTHLY;BYMONTHDAY=d;SHIFT=spec judged from DTSTART itself on (the other families start judging
+ * years later).  DTSTART 2020-01-DD.  Sources are day d of the months 2019-07 .. 2022-06; a source in DTSTART's month
+ * or later all of whose acceptable images lie in DTSTART .. 2021-06-30 must have one of them in the stream; a source
+ * of an earlier month may or may not show (left open, as in the header); every occurrence up to 2021-06-30 must be an
+ * image of some source and lie on or after DTSTART. */
+static void
+shift_mstart(const struct spec_s *sp, int d, int dd)
+{
+	static long obs[200];
+	static struct src_s src[40];
+	char lines[256], sig[200], b1[48], b2[32], b3[32];
+	bool ended;
+	const long z0 = cvl_days(2020, 1, dd), Z1 = cvl_days(2021, 6, 30);
+	int ns = 0, no;
+	const char *cls = sp->n < -45 ? "N=-46..-70" : sp->n < -27 ? "N=-28..-45" : sp->n < 0 ? "N=-1..-27" : sp->n == 0 ? "N=0" : sp->n <= 27 ? "N=1..27" : sp->n <= 45 ? "N=28..45" : "N=46..70";
+
+	for (int k = -6; k < 30; k++) {
+		const int mi = 2020 * 12 + k, y = mi / 12, m = mi % 12 + 1;
+		src[ns].valid = d <= cvl_ndim(y, m);
+		if (src[ns].valid) {
+			src[ns].z = cvl_days(y, m, d);
+			src[ns].nimg = images(src[ns].img, sp, src[ns].z);
+		}
+		ns++;
+	}
+	snprintf(lines, sizeof(lines), "DTSTART;VALUE=DATE:202001%02d\nRRULE:FREQ=MONTHLY;BYMONTHDAY=%d;SHIFT=%s\n", dd, d, sp->txt);
+	vd_desc("%s", lines);
+	for (char *q = vd_sh->desc; *q; q++) if (*q == '\n') *q = ' ';
+	no = run_stream(obs, 200, lines, Z1, &ended);
+	vd_sh->evals++;
+	if (no < 0) {
+		snprintf(sig, sizeof(sig), "mstart-no-stream/%s/%s", fgroup(sp), cls);
+		vd_viol(sig, "the parser gave no recurring task");
+		return;
+	}
+	for (int j = 0; j < no; j++) {
+		bool known = false;
+		if (obs[j] > Z1) continue;
+		if (obs[j] < z0) {
+			snprintf(sig, sizeof(sig), "mstart-before-dtstart/%s/%s", fgroup(sp), cls);
+			vd_viol(sig, "%s occurs before DTSTART", zstr(b1, sizeof(b1), obs[j]));
+			break;
+		}
+		for (int k = 0; k < ns && !known; k++) known = src[k].valid && img_has(&src[k], obs[j]);
+		if (!known) {
+			snprintf(sig, sizeof(sig), "mstart-extra/%s/%s", fgroup(sp), cls);
+			vd_viol(sig, "%s occurs but is the image of no month's day %d", zstr(b1, sizeof(b1), obs[j]), d);
+			break;
+		}
+	}
+	for (int k = 6; k < ns; k++) {
+		bool inwin = true, hit = false;
+		if (!src[k].valid) continue;
+		for (int q = 0; q < src[k].nimg; q++) inwin &= src[k].img[q] >= z0 && src[k].img[q] <= Z1;
+		/* the source itself must not lie before DTSTART either (that is the part left open) */
+		if (!inwin || src[k].z < z0) continue;
+		for (int j = 0; j < no && !hit; j++) hit = img_has(&src[k], obs[j]);
+		if (!hit) {
+			snprintf(sig, sizeof(sig), "mstart-missing/%s/%s/%s", fgroup(sp), cls, k == 6 ? "first-month" : "later-month");
+			vd_viol(sig, "%s must become %s%s%s, which does not occur", zstr(b1, sizeof(b1), src[k].z), zstr(b2, sizeof(b2), src[k].img[0]),
+				src[k].nimg > 1 ? " or " : "", src[k].nimg > 1 ? zstr(b3, sizeof(b3), src[k].img[1]) : "");
+			break;
+		}
+	}
+	for (int j = 1; j < no; j++) {
+		if (obs[j] <= obs[j - 1]) {
+			snprintf(sig, sizeof(sig), "mstart-order/%s/%s", fgroup(sp), cls);
+			vd_viol(sig, "occurrence %d (%s) is not after occurrence %d (%s)", j, zstr(b1, sizeof(b1), obs[j]), j - 1, zstr(b2, sizeof(b2), obs[j - 1]));
+			break;
+		}
+	}
+}
+
 static void
 enumerate(void)
 {
@@ -986,6 +1059,27 @@ enumerate(void)
 				NONTRIVIAL();
 				vd_sample("shift long: BYMONTH=%d;BYMONTHDAY=%d;SHIFT=%s from June 1 of each of 1930..%d to 2099", md[q][0], md[q][1], sp[k].txt, ymax);
 			}
+		}
+	} else if (!strcmp(mode, "mstart")) {
+		static struct spec_s sp[3000];
+		const int nsp = mkspecs(sp, 3000, "all");
+		static const int ds[] = {1, 2, 15, 28, 29, 30, 31};
+		static const int dds[] = {1, 2, 15, 31};
+
+		for (int k = 0; k < nsp; k++) {
+			if (sp[k].n > 70 || sp[k].n < -70) continue;
+			if (sp[k].n && (sp[k].form == F_BPLUS || sp[k].form == F_BMINUS)) continue;
+			if (!vd_next()) continue;
+			vd_shape("shift-mstart/%s/%s", fgroup(&sp[k]), sp[k].n < 0 ? "N-neg" : sp[k].n ? "N-pos" : "N=0");
+			for (size_t i = 0; i < sizeof(ds) / sizeof(*ds); i++) {
+				for (size_t j = 0; j < sizeof(dds) / sizeof(*dds); j++) {
+					shift_mstart(&sp[k], ds[i], dds[j]);
+				}
+			}
+			if (sp[k].n != 0 || sp[k].form != F_DAY) {
+				NONTRIVIAL();
+			}
+			if (vd_want_sample()) vd_sample("monthly from the start: BYMONTHDAY=1,2,15,28..31;SHIFT=%s from 2020-01-01/02/15/31, judged to 2021-06-30", sp[k].txt);
 		}
 	} else if (!strcmp(mode, "multi")) {
 		static struct spec_s sp[3000];
